@@ -27,7 +27,7 @@ CHECKS["C09"] = dict(
 CHECKS["C02"] = dict(
     engine="E1", category="model_checking", design="4/C02",
     technique="explicit-state exploration (fork-checkpointed DFS) of entitlement-change histories on the real code, an invariant after every repository synchronisation, convergence and idempotence oracles after a bounded number of sync rounds",
-    text="Every sequence (up to the completed depth) of entitlement changes at two levels (grow, partial overlap, disjoint, regain), suspend/unsuspend, class-name mapping world, key rolls (thorough) is executed; after each repository sync of a CA its published child certificates must lie within the certificate it holds and every active child's certificate must have been replaced (not dropped); after two top-down sync rounds every child must hold exactly entitlement ∩ issuer with no open request, and a further round must add no command and change no published byte.",
+    text="Every sequence (up to the completed depth) of entitlement changes at two levels (grow, partial overlap, disjoint, regain), suspend/unsuspend, class-name mapping world, key rolls (thorough) is executed; after each repository sync of a CA its published child certificates must lie within the certificate it holds and every active child's certificate must have been replaced (not dropped); the same invariant is evaluated at every quiescent instant of the refresh round that follows each operation (after each CA has synchronised with its parents and before its children call in); after two top-down sync rounds every child must hold exactly entitlement ∩ issuer with no open request, and a further round must add no command and change no published byte.",
     note=E1_NOTE + " One deterministic scenario (issuer shrinks while a child has not yet picked up a changed entitlement) is run besides the exploration; what it shows is a recorded known finding.")
 CHECKS["C03"] = dict(
     engine="E1", category="model_checking", design="4/C03",
@@ -79,7 +79,7 @@ CHECKS["C12"] = dict(
 CHECKS["C16"] = dict(
     engine="E4", category="model_checking", design="4/C16",
     technique="bounded-exhaustive structured mutation of valid inputs (every truncation, single-byte substitution/deletion/duplication, every XML attribute/element and JSON leaf x hostile-value menu, every path parameter x segment menu, every other route's body cross-wired, all byte strings up to length 1/2) sent to the real entry points: CaManager::rfc6492 / RepositoryManager::rfc8181 (raw CMS and validly signed hostile content) and the daemon's own HTTP service (authentication, path parsing, body limits, JSON decoding, dispatch, thread pool) over an in-memory connection",
-    text="Every listed mutation of 5 valid provisioning/publication CMS messages, of their XML content re-signed with the registered identity key, of the valid JSON body of each of the body-reading API routes, and of every path parameter of all routes of the route table: no panic on any thread (panic hook), no process death, no hang; an error outcome (refusal / 4xx / 5xx) leaves the stored state unchanged apart from the audit record of a rejected command; afterwards the daemon still answers, every entity reloads and (protocol part) the repository is still relying-party valid.",
+    text="Every listed mutation of 5 valid provisioning/publication CMS messages, of their XML content re-signed with the registered identity key, of the valid JSON body of each of the body-reading API routes, and of every path parameter of all routes of the route table: no panic on any thread (panic hook), no process death, no hang; an error outcome (refusal / 4xx / 5xx) leaves the stored state unchanged apart from the audit record of a rejected command; after every accepted request that changed something the fixture is put back (revoked key re-issued, updated object restored, API fixture restored from a pristine copy), so that every case meets the same state; afterwards the daemon still answers, every entity reloads and (protocol part) the repository is still relying-party valid.",
     note="'Every byte string' is not enumerable: the input space is the stated mutation neighbourhood of valid messages plus all strings of length <=1 (quick) / <=2 (thorough). The harness profile mirrors the release profile (overflow checks off, debug assertions off) but unwinds instead of aborting so that the sweep can continue after a panic. TLS/socket layers are not exercised. Two panics inside the rpki dependency are recorded as known findings (not fixable in this repository).")
 
 CHECKS["C13"] = dict(
@@ -97,7 +97,7 @@ CHECKS["C20"] = dict(
 CHECKS["C15"] = dict(
     engine="E1", category="model_checking", design="4/C15",
     technique="explicit-state exploration (fork-checkpointed DFS) of trust-anchor proxy/signer exchanges on the real aggregates, with the harness carrying the messages: genuine, replayed, stale, re-ordered, cross-wired and modified requests and responses, two children requesting concurrently, a key roll of a child and a re-initialisation of the signer in between",
-    text="Every sequence (up to the completed depth) of: child c1/c2 synchronising with the TA, the proxy opening a signer request, the signer processing the latest or the previous pooled request (genuine, clear text altered, nonce altered, signed part swapped with the other pooled request or with a message signed by the signer's own key), the proxy being handed the latest or previous pooled response (genuine, nonce rewritten to the open one, child responses dropped, revision number lowered, signed part swapped with the other pooled response or with a message signed by the proxy's key), a key roll of c1, a re-initialisation of the signer (same TA key, new identity) followed by the proxy's signer update: a request is opened only when none is open; the signer processes only unaltered requests signed by the proxy; the proxy accepts only the unaltered response carrying the open nonce and signed by the signer it is currently associated with (responses of the retired signer are refused); refused messages leave proxy/signer unchanged; no key has an open request and an open response at once and a fetched response leaves the proxy; TA manifest numbers in proxy, signer and repository never decrease and a changed manifest has a higher number; the tree stays relying-party valid.",
+    text="Every sequence (up to the completed depth) of: child c1/c2 synchronising with the TA, the proxy opening a signer request, the signer processing the latest or the previous pooled request (genuine, clear text altered, nonce altered, signed part swapped with the other pooled request or with a message signed by the signer's own key), the proxy being handed the latest or previous pooled response (genuine, nonce rewritten to the open one, child responses dropped, revision number lowered, signed part swapped with the other pooled response or with a message signed by the proxy's key), a key roll of c1, a re-initialisation of the signer (same TA key, new identity) followed by the proxy's signer update: a request is opened only when none is open; the signer processes only unaltered requests signed by the proxy; the proxy accepts only the unaltered response carrying the open nonce and signed by the signer it is currently associated with (responses of the retired signer are refused); refused messages leave proxy/signer unchanged; no key has an open request and an open response at once and a fetched response leaves the proxy; a response waiting for a child stays in the proxy until that child asks; in a second configuration the harness itself plays a child of the TA with two keys (local request path, hook H7) and a reference life cycle per key (nothing outstanding / request open / response waiting) is compared with what the child is told at every request: a forwarded request is answered exactly once and the answer is handed over exactly once, also when answers to two requests arrive in separate exchanges; TA manifest numbers in proxy, signer and repository never decrease and a changed manifest has a higher number; the tree stays relying-party valid.",
     note=E1_NOTE + " The scheduler is not run in this model (it would perform the whole exchange itself); hook H7 exposes the signer half of sync_ta_proxy_signer_if_possible. Signer re-initialisation uses hook H7 (drop + init with the same key + update of the proxy).")
 
 CHECKS["C08"] = dict(
@@ -126,7 +126,7 @@ CHECKS["C10"] = dict(
 CHECKS["C11"] = dict(
     engine="E1+E3", category="model_checking", design="4/C11",
     technique="explicit-state exploration (fork-checkpointed DFS) of publication histories with a simulated RRDP client that remembers every serial it has seen, under several retention configurations; plus enumeration of every file-system cut point of a repository write (fault points) with recovery by the next write",
-    text="Every publication history (up to the completed depth) with RRDP updates, session resets and clock steps under retention configurations (tight 1/2, dense young-delta, min=max, thorough: test, default+archive, dense archive): after every step the notification parses and names an existing snapshot and deltas with the stated hashes, the snapshot equals the publication state at its serial, serials step by one, the session changes only on reset (serial 1, no deltas), deltas form a contiguous run ending at the serial and respect the documented maximum, a client at any remembered serial reaches the snapshot through the advertised chain, and rsync/current equals the snapshot. Fault part: every cut (crash and single failing write) of the file-system mutation sequence of an update or session reset; then first a plain retry of the same write with nothing new to publish (it must succeed and leave RRDP files, rsync tree and - for an update - the server's content in agreement), then a withdrawal, two publications and a withdrawal with session reset, each with a successful write and a consistent result.",
+    text="Every publication history (up to the completed depth; publish, update, a second update of the same object, withdraw, two-element deltas) with RRDP updates, session resets and clock steps under retention configurations (tight 1/2, dense young-delta, min=max, thorough: test, default+archive, dense archive): after every step the notification parses and names an existing snapshot and deltas with the stated hashes, the snapshot equals the publication state at its serial, serials step by one, the session changes only on reset (serial 1, no deltas), deltas form a contiguous run ending at the serial and respect the documented maximum, a client at any remembered serial reaches the snapshot through the advertised chain, and rsync/current equals the snapshot. Fault part: every cut (crash and single failing write) of the file-system mutation sequence of an update or session reset; then first a plain retry of the same write with nothing new to publish (it must succeed and leave RRDP files, rsync tree and - for an update - the server's content in agreement), then a withdrawal, two publications and a withdrawal with session reset, each with a successful write and a consistent result.",
     note=E1_NOTE + " The delta cap follows the documented precedence (min_nr previous deltas plus the new one and all deltas younger than min_seconds are always kept). Cuts are process deaths between mutations, not torn sectors.")
 
 NOT_YET = {
